@@ -48,10 +48,11 @@ CHECKS = {
     "C11": (True,
             "Theorems for all cue lists with start<=end (any order, no size bound): Unfragment's result is start-ordered, every result "
             "cue is an input cue extended to the end of a same-text cue, the set of texts on screen at every instant is unchanged, no two "
-            "same-text cues touch or overlap; ordered lists without touching same-text cues are fixpoints; idempotence. The inverse law "
-            "unfragment(fragment f l) ~ l is NOT proved: it is checked by composing model and implementation on exhaustive grids x f in "
-            "1..5 and random lists, with an independent oracle (partial).",
-            "Rocq proof over a Gallina model + extracted-model differential correspondence; inverse law by correspondence only",
+            "same-text cues touch or overlap; ordered lists without touching same-text cues are fixpoints; idempotence; and the inverse law "
+            "map proj (unfragment (fragment f l)) = map proj l for every f>0 and every start-ordered list of positive-length cues free of "
+            "touching same-text cues. Model and implementation are also composed on exhaustive grids x f in 1..5 and random lists, with "
+            "an independent oracle.",
+            "Rocq proof over a Gallina model + extracted-model differential correspondence",
             "text identity is Item.String() modelled on the structured text (item_text)."),
     "C13": (True,
             "Theorems for all cue lists with arbitrary reference graphs (no size bound, cyclic parent links included): after Optimize a "
